@@ -139,6 +139,14 @@ chk('C11',
     'Trusted: the reconstruction (real code from scratch) and the canonical value comparison in Python.',
     'sanitizer build + differential monitor (stored value vs full recalculation) over operation histories', 'DESIGN.md 4 C11')
 
+chk('C13',
+    'Runtime monitoring of OpExtractBasis / OpMaxPart on schemas reached by editing histories (forward references, moved '
+    'constituents, incorrect members) against a Python reference model (closure / fixpoint over the reported edges, '
+    'positional alias map, whole-identifier substitution): exact member set, order, definitions, dependency edges, status, '
+    'typification and value class of every copied constituent; source unchanged.',
+    'Trusted: the dependency edges of the source as reported by the schema (C07 checks them) and the identifier regex.',
+    'sanitizer build + reference-model monitor (closure/fixpoint + renaming) over extraction results', 'DESIGN.md 4 C13')
+
 for _p in ['C01', 'C02', 'C03', 'C04', 'C05', 'C06', 'C07', 'C08', 'C09', 'C10', 'C11', 'C12', 'C13', 'C15', 'C16',
            'C17', 'C18', 'C19']:
     if _p not in CHECKS:
